@@ -23,8 +23,8 @@ CHECKS = {
         "require_ops": ["law.dagger_compose", "law.dagger_tensor", "law.spider_fusion", "strict.spider", "lax.spider", "strict.dagger", "lax.dagger"],
     },
     "C07": {
-        "quick": {"gen": [G("MC_C07", "MC_C07_quick.cfg")]},
-        "thorough": {"gen": [G("MC_C07", "MC_C07_thorough.cfg")]},
+        "quick": {"drive": [{'machine': 'arrays', 'budget': 3000}], "gen": [G("MC_C07", "MC_C07_quick.cfg")]},
+        "thorough": {"drive": [{'machine': 'arrays', 'budget': 50000}], "gen": [G("MC_C07", "MC_C07_thorough.cfg")]},
         "require_ops": ["arr.gather", "arr.scatter", "arr.argsort", "arr.connected_components", "arr.sparse_bincount", "arr.segmented_sum", "arr.get_range", "arr.sort_by"],
     },
     "C06": {
@@ -38,13 +38,13 @@ CHECKS = {
         "require_ops": ["ic.new_ff", "ic.flatmap", "ic.map_indexes_ff", "ic.iter_ff", "ic.iter_sf", "ops.iter", "ic.flatmap_sources_ff", "ic.map_values"],
     },
     "C09": {
-        "quick": {"gen": [G("MC_Lax", "MC_C09_quick.cfg"), G("MC_Lax", "MC_C09_chains.cfg")]},
-        "thorough": {"gen": [G("MC_Lax", "MC_C09_thorough.cfg")]},
+        "quick": {"drive": [{'machine': 'lax', 'budget': 3000}], "gen": [G("MC_Lax", "MC_C09_quick.cfg"), G("MC_Lax", "MC_C09_chains.cfg")]},
+        "thorough": {"drive": [{'machine': 'lax', 'budget': 50000}], "gen": [G("MC_Lax", "MC_C09_thorough.cfg")]},
         "require_ops": ["lax.quotient", "lax.h.quotient", "lax.unify"],
     },
     "C11": {
-        "quick": {"gen": [G("MC_Lax", "MC_C11_quick.cfg")]},
-        "thorough": {"gen": [G("MC_Lax", "MC_C11_quick.cfg")]},
+        "quick": {"drive": [{'machine': 'lax', 'budget': 3000}], "gen": [G("MC_Lax", "MC_C11_quick.cfg")]},
+        "thorough": {"drive": [{'machine': 'lax', 'budget': 50000}], "gen": [G("MC_Lax", "MC_C11_quick.cfg")]},
         "require_ops": ["lax.new_node", "lax.new_edge", "lax.new_operation", "lax.add_edge_source", "lax.add_edge_target", "lax.unify", "lax.delete_nodes", "lax.delete_edges", "lax.map_nodes", "lax.serde_roundtrip", "lax.h.delete_nodes_witness"],
     },
     "C10": {
@@ -53,13 +53,13 @@ CHECKS = {
         "require_ops": ["lax.to_strict", "lax.from_strict", "lax.roundtrip_strict", "lax.roundtrip_lax", "lax.compose", "lax.lax_compose", "lax.tensor_assign", "lax.append", "lax.singleton"],
     },
     "C15": {
-        "quick": {"gen": [G("MC_C15", "MC_C15_quick.cfg")]},
-        "thorough": {"gen": [G("MC_C15", "MC_C15_thorough.cfg")]},
+        "quick": {"drive": [{'machine': 'strict', 'budget': 3000}], "gen": [G("MC_C15", "MC_C15_quick.cfg")]},
+        "thorough": {"drive": [{'machine': 'strict', 'budget': 50000}], "gen": [G("MC_C15", "MC_C15_thorough.cfg")]},
         "require_ops": ["strict.layer", "strict.layered_operations", "hook.kahn", "hook.converse", "hook.operation_adjacency", "hook.indegree"],
     },
     "C17": {
-        "quick": {"gen": [G("MC_C15", "MC_C17_quick.cfg")], "profiles": ["debug", "release"]},
-        "thorough": {"gen": [G("MC_C15", "MC_C17_thorough.cfg")], "profiles": ["debug", "release"]},
+        "quick": {"drive": [{'machine': 'strict', 'budget': 3000}], "gen": [G("MC_C15", "MC_C17_quick.cfg")], "profiles": ["debug", "release"]},
+        "thorough": {"drive": [{'machine': 'strict', 'budget': 50000}], "gen": [G("MC_C15", "MC_C17_thorough.cfg")], "profiles": ["debug", "release"]},
         "require_ops": ["strict.is_acyclic", "strict.is_monogamous", "hyper.in_degree", "hyper.out_degree"],
     },
     "C16": {
@@ -93,7 +93,7 @@ CHECKS = {
         "require_ops": ["var.script", "var.forget", "var.forget_monogamous", "var.forget_eval"],
     },
     "C20": {
-        "quick": {"advseeds": 4, "gen": [
+        "quick": {"drive": [{'machine': 'strict', 'budget': 2000, 'backend': 'adv'}, {'machine': 'arrays', 'budget': 2000, 'backend': 'adv'}], "advseeds": 4, "gen": [
             G("MC_C07", "MC_C07_small.cfg", backends=["adv"]),
             G("MC_C01", "MC_C01_small.cfg", backends=["adv"]),
             G("MC_C04", "MC_C04_small.cfg", backends=["adv"]),
@@ -103,7 +103,7 @@ CHECKS = {
             G("MC_C16", "MC_C16_small.cfg", backends=["adv"]),
             G("MC_C18", "MC_C18_small.cfg", backends=["adv"]),
         ]},
-        "thorough": {"advseeds": 16, "gen": [
+        "thorough": {"drive": [{'machine': 'strict', 'budget': 30000, 'backend': 'adv'}, {'machine': 'arrays', 'budget': 30000, 'backend': 'adv'}], "advseeds": 16, "gen": [
             G("MC_C07", "MC_C07_quick.cfg", backends=["adv"]),
             G("MC_C01", "MC_C01_quick.cfg", backends=["adv"]),
             G("MC_C04", "MC_C04_quick.cfg", backends=["adv"]),
@@ -116,7 +116,7 @@ CHECKS = {
         "require_ops": ["arr.argsort", "arr.connected_components", "arr.sparse_bincount", "arr.scatter", "strict.compose", "functor.map_arrow", "optic.eval_adapted", "strict.layer", "strict.eval", "arrow.is_convex_subgraph", "strict.is_monogamous"],
     },
     "C05": {
-        "quick": {"gen": [
+        "quick": {"drive": [{'machine': 'strict', 'budget': 3000}], "gen": [
             G("MC_C05", "MC_C05_quick.cfg"),
             G("MC_C06", "MC_C06_quick.cfg"),
             G("MC_C08", "MC_C08_quick.cfg"),
@@ -127,7 +127,7 @@ CHECKS = {
             G("MC_C12", "MC_C12_small.cfg"),
             G("MC_C14", "MC_C14_small.cfg"),
         ]},
-        "thorough": {"gen": [
+        "thorough": {"drive": [{'machine': 'strict', 'budget': 50000}], "gen": [
             G("MC_C05", "MC_C05_quick.cfg"),
             G("MC_C06", "MC_C06_quick.cfg"),
             G("MC_C08", "MC_C08_quick.cfg"),
@@ -141,8 +141,8 @@ CHECKS = {
         "require_ops": ["hyper.new", "strict.new", "ff.new", "ic.new_ff", "ops.new", "strict.identity", "strict.twist", "strict.singleton", "strict.tensor_operations", "strict.compose", "strict.tensor", "functor.map_arrow", "optic.map_arrow", "lax.to_strict", "lax.from_strict"],
     },
     "C01": {
-        "quick": {"gen": [G("MC_C01", "MC_C01_quick.cfg")]},
-        "thorough": {"gen": [G("MC_C01", "MC_C01_quick.cfg")]},
+        "quick": {"drive": [{'machine': 'strict', 'budget': 3000}], "gen": [G("MC_C01", "MC_C01_quick.cfg")]},
+        "thorough": {"drive": [{'machine': 'strict', 'budget': 50000}], "gen": [G("MC_C01", "MC_C01_quick.cfg")]},
         "require_ops": ["strict.compose"],
     },
 }
